@@ -199,9 +199,15 @@ func trimStack(b []byte) string {
 	return s
 }
 
-// Watchdog runs f on its own goroutine and waits at most d.  On expiry it returns a Failure
-// with key "hang@<site>"; the goroutine cannot be stopped, so the caller should end the
-// process soon after reporting.
+// SlowCalls counts calls that needed longer than their bound but did return within the grace
+// period (a loaded machine, not a hang).
+var SlowCalls int64
+
+// Watchdog runs f on its own goroutine and waits at most d, plus a grace period of 4 x d during
+// which a late return is accepted (and counted in SlowCalls): a call that returns late on an
+// overloaded machine is not a hang; a deadlocked or spinning call never returns and is
+// reported as "hang@<site>" after 5 x d.  The goroutine cannot be stopped, so the caller
+// should end the process soon after reporting.
 func Watchdog(site string, d time.Duration, f func() *Failure) *Failure {
 	ch := make(chan *Failure, 1)
 	go func() { ch <- Guard(site, f) }()
@@ -209,6 +215,12 @@ func Watchdog(site string, d time.Duration, f func() *Failure) *Failure {
 	case r := <-ch:
 		return r
 	case <-time.After(d):
-		return &Failure{Key: "hang@" + site, Msg: fmt.Sprintf("no return within %v", d)}
+	}
+	select {
+	case r := <-ch:
+		atomic.AddInt64(&SlowCalls, 1)
+		return r
+	case <-time.After(4 * d):
+		return &Failure{Key: "hang@" + site, Msg: fmt.Sprintf("no return within %v (bound %v plus grace period)", 5*d, d)}
 	}
 }
